@@ -24,6 +24,7 @@
 #include "gen/gens.hpp"
 #include "gen/mutate.hpp"
 #include <climits>
+#include <sys/wait.h>
 
 using pbt::Ctx; using pbt::Bytes;
 
@@ -128,6 +129,35 @@ static void prop(Ctx &c) {
     }
     zck_free(&z); close(fd);
     if (!fail_sig.empty()) c.fail(fail_sig, fail_msg);
+    // ---- what `zck_read_header -c` prints must be the same metadata (ASan build of the tool)
+    const char *bdir = getenv("VERIF_BUILD");
+    if (bdir && opened && pr.ok && h.meta_ok && c.draw(c.tier ? 15 : 40) == 0) {
+        char path[128]; snprintf(path, sizeof path, "/dev/shm/c13-%d.zck", (int)getpid()); { FILE *f = fopen(path, "wb"); if (f) { fwrite(img.data(), 1, img.size(), f); fclose(f); } }
+        int ofd = memfd_create("out", 0); std::string tool = std::string(bdir) + "/asan/tools/zck_read_header";
+        pid_t pid = fork();
+        if (pid == 0) { struct itimerval it; memset(&it, 0, sizeof it); setitimer(ITIMER_PROF, &it, nullptr); struct rlimit rl = {20, 22}; setrlimit(RLIMIT_CPU, &rl); int dn = open("/dev/null", O_RDWR); dup2(dn, 0); dup2(ofd, 1); dup2(dn, 2); execl(tool.c_str(), "zck_read_header", "-c", path, (char *)nullptr); _exit(126); }
+        int st = 0; waitpid(pid, &st, 0); unlink(path); Bytes ob = lib::fd_bytes(ofd); close(ofd); std::string out((const char *)ob.data(), ob.size());
+        c.label("tool-output-compared");
+        if (WIFEXITED(st) && WEXITSTATUS(st) == 126) c.fail("tool-missing", "cannot run " + tool);
+        if (WIFEXITED(st) && WEXITSTATUS(st) == 0) {
+            static const char *HN[] = {"SHA-1", "SHA-256", "SHA-512", "SHA-512/128"};
+            auto field = [&](const std::string &key) { size_t p2 = out.find(key + ": "); if (p2 == std::string::npos) return std::string("(absent)"); size_t e = out.find('\n', p2); return out.substr(p2 + key.size() + 2, e - p2 - key.size() - 2); };
+            auto want = [&](const std::string &key, const std::string &w) { std::string g = field(key); if (g != w) c.fail("tool-output:" + key, "zck_read_header prints '" + key + ": " + g + "', the file says " + w); };
+            want("Overall checksum type", HN[h.hash_type]); want("Header size", std::to_string(h.total_size)); want("Header checksum", hex(h.header_digest)); want("Data checksum", hex(h.data_digest));
+            want("Chunk count", std::to_string(h.count)); want("Chunk checksum type", HN[h.chunk_hash_type]);
+            if (!(h.data_length >> 63)) want("Data size", std::to_string((uint64_t)h.data_length));
+            // chunk table lines: number digest [udigest] start comp size
+            size_t tp = out.find("       Chunk Checksum"); std::istringstream ls(tp == std::string::npos ? "" : out.substr(out.find('\n', tp) + 1)); std::string line; size_t i2 = 0; ref::u128 run2 = 0;
+            while (std::getline(ls, line) && i2 < h.entries.size()) {
+                std::istringstream ts(line); unsigned long long num, start, comp, size; std::string dg, udg; ts >> num >> dg; if (h.flags & 4) ts >> udg; ts >> start >> comp >> size;
+                const ref::Entry &e = h.entries[i2];
+                if (!ts || num != i2 || dg != hex(e.digest) || ((h.flags & 4) && udg != hex(e.udigest)) || start != (unsigned long long)(h.total_size + (uint64_t)run2) || comp != e.comp_len || size != e.len)
+                    c.fail("tool-output:chunk-line", "zck_read_header -c prints '" + line + "' for chunk " + std::to_string(i2) + ", the file says digest " + hex(e.digest) + " start " + std::to_string(h.total_size + (uint64_t)run2) + " comp " + std::to_string(e.comp_len) + " size " + std::to_string(e.len));
+                run2 += e.comp_len; i2++;
+            }
+            if (i2 != h.entries.size()) c.fail("tool-output:chunk-count", "zck_read_header -c lists " + std::to_string(i2) + " chunks, the file has " + std::to_string(h.entries.size()));
+        } else c.label("tool-refuses");
+    }
 }
 
 PBT_MAIN("C13", prop, nullptr)
